@@ -24,6 +24,7 @@ func (p *Undefined) WriteTo(w io.Writer) (int64, error) {
 }
 
 func (p *Undefined) UnmarshalBinary(data []byte) error {
-	p.data = data
+	// the caller owns data, see encoding.BinaryUnmarshaler
+	p.data = append([]byte(nil), data...)
 	return nil
 }
